@@ -31,18 +31,20 @@ type Scenario struct {
 	SRTPWrap     bool         `json:"srtp_wrap,omitempty"`     // TLS: let sequence numbers wrap (see srtpMissedWrap)
 	SeqStart     int          `json:"seq_start,omitempty"`     // first sequence number of every format (0: seeded)
 	ExpectDesync bool         `json:"expect_desync,omitempty"` // reproduces the known finding c01-srtp-roc-desync
+	SizeTop      bool         `json:"size_top,omitempty"`      // every other write has a total RTP size in [MaxPacketSize-16, MaxPacketSize+4]
 }
 
 type ReaderSpec struct {
-	Transport string `json:"transport"` // udp | tcp | http | ws
-	Medias    []int  `json:"medias"`    // medias to set up, in this order
-	Plan      []Step `json:"plan"`
-	Loss      int    `json:"loss,omitempty"` // UDP faults, per mille
-	Dup       int    `json:"dup,omitempty"`
-	Reorder   int    `json:"reorder,omitempty"`
-	StallEach int    `json:"stall_each,omitempty"` // the callback sleeps 200µs every StallEach packets
-	Raw       bool   `json:"raw,omitempty"`        // hand-written TCP reader (explicit interleaved channels, no PAUSE)
-	Chans     []int  `json:"chans,omitempty"`      // raw: first interleaved id requested per SETUP (-1: none)
+	Transport   string `json:"transport"` // udp | tcp | http | ws
+	Medias      []int  `json:"medias"`    // medias to set up, in this order
+	Plan        []Step `json:"plan"`
+	Loss        int    `json:"loss,omitempty"` // UDP faults, per mille
+	Dup         int    `json:"dup,omitempty"`
+	Reorder     int    `json:"reorder,omitempty"`
+	StallEach   int    `json:"stall_each,omitempty"`   // the callback sleeps 200µs every StallEach packets
+	Raw         bool   `json:"raw,omitempty"`          // hand-written TCP reader (explicit interleaved channels, no PAUSE)
+	Chans       []int  `json:"chans,omitempty"`        // raw: first interleaved id requested per SETUP (-1: none)
+	KeepaliveUs int    `json:"keepalive_us,omitempty"` // raw: an OPTIONS / GET_PARAMETER every so many µs while the stream flows
 }
 
 // Step is one scheduled operation: before write number At.
@@ -60,10 +62,20 @@ type pktMeta struct {
 	ts     uint32
 	marker bool
 	size   int
+	mayErr bool   // larger than the configured maximum: the write may (must, on an intact tree) return an error
 	ssrcIn uint32 // what the caller puts into the SSRC field (must be overwritten)
 }
 
 const hdrSize = 12
+
+// plainMaxPayload: payload bytes of a packet whose plain RTP size is exactly MaxPacketSize.
+func (sc *Scenario) plainMaxPayload() int {
+	m := sc.MaxPkt
+	if m == 0 {
+		m = 1472
+	}
+	return m - hdrSize
+}
 
 func (sc *Scenario) maxPayload() int {
 	m := sc.MaxPkt
@@ -125,7 +137,8 @@ func genPackets(sc *Scenario) []pktMeta {
 		case x == 1:
 			p.size = maxp
 		case x == 2:
-			p.size = maxp - 1 - rng.IntN(3)
+			// the top 16 bytes below MaxPacketSize (secure: across the SRTP overhead) and a little above
+			p.size = sc.plainMaxPayload() - 16 + rng.IntN(21)
 		case x == 3:
 			p.size = 2 + rng.IntN(14)
 		case x < 12:
@@ -136,8 +149,19 @@ func genPackets(sc *Scenario) []pktMeta {
 		if sc.SizeSweep {
 			p.size = 1 + i%maxp
 		}
+		if sc.SizeTop {
+			if i%2 == 0 {
+				p.size = sc.plainMaxPayload() - 16 + (i/2)%21
+			} else {
+				p.size = 1 + rng.IntN(120)
+			}
+		}
 		if p.size > maxp {
-			p.size = maxp
+			if sc.PubRaw {
+				p.size = maxp // (a hand-written publisher has no size check of its own)
+			} else {
+				p.mayErr = true
+			}
 		}
 		if p.size < 1 {
 			p.size = 1
